@@ -50,9 +50,9 @@ def gen(rng, tier):
             c["Text"] = L.layout(rng, s)
             c["kind"] += "+layout"
         cases.append(c)
-    # a program that handles several structures at once: a dozen frames sliced and numbered at the same time, each in a
+    # a program that handles several structures at once: four dozen frames sliced and numbered at the same time, each in a
     # goroutine of its own in one process - every one must be numbered as it is alone
-    for i in range(12 if tier == "quick" else 48):
+    for i in range(48 if tier == "quick" else 192):
         c = core.case_from_struct(G.gen_frame(rng, max_cells=3), Weight=core.weights(i), Concurrent=True)
         c["kind"] += "+concurrent"
         cases.append(c)
